@@ -17,6 +17,13 @@ package c01
 //	skeys  sub-model: statedb.Storage.SortedKeys.
 //	abi    the method selectors of the three precompile ABIs (+ lookups by id).
 //	tw     ValidatorPerformances.TotalRewardWeight.
+//	range  sub-model: `for k := range om.Range()` on the real omap.SortedMap consumed under several WALL CLOCKS (no delay,
+//	       short delays, one long stall between two receives); the keys each consumer received.
+//
+// Since round 6 part of the diff histories additionally run on a SLOW replica (field "lag"): same genesis, same blocks, but
+// wall-clock delays are injected at its store operations — short ones everywhere (store tracer of the whole multistore as
+// yield points), long stalls at store operations of BeginBlock / EndBlock that happen while a goroutine started by the
+// application is alive (a stall can only change an outcome if something else runs, or a timer is pending, meanwhile).
 
 import (
 	"bytes"
@@ -29,6 +36,7 @@ import (
 	"math/rand"
 	"os"
 	"os/exec"
+	"runtime"
 	"sort"
 	"testing"
 	"time"
@@ -110,6 +118,16 @@ type c01Input struct {
 	Ws     [][2]int   `json:"ws,omitempty"`     // tw: (validator id, reward weight)
 	Plain  bool       `json:"plain,omitempty"`  // diff: no replica perturbations (queries / CheckTx / restart)
 	Child  bool       `json:"child,omitempty"`  // diff: additionally run the history in a separate process
+	Lag    *lagPlan   `json:"lag,omitempty"`    // diff: additionally run the history on a replica with injected wall-clock delays
+	Delays [][]int    `json:"delays,omitempty"` // range: per consumer, milliseconds before its 1st, 2nd, … receive (keys in Keys)
+}
+
+// lagPlan: the wall clock of the slow replica
+type lagPlan struct {
+	BaseUs  int `json:"base_us"`  // short delay (microseconds) at every Every-th store operation
+	Every   int `json:"every"`    //
+	StallMs int `json:"stall_ms"` // long stall (a disk stall, a GC / VM pause, SIGSTOP)
+	Stalls  int `json:"stalls"`   // at most this many long stalls in the history
 }
 
 type sudoStep struct {
@@ -298,6 +316,142 @@ func (w *world) buildGenesis() []byte {
 	return bz
 }
 
+// ------------------------------------------------------------------ injected wall-clock delays (slow replica)
+
+// lagger decides, at every yield point (= store operation) of the slow replica, whether time passes.
+type lagger struct {
+	plan      lagPlan
+	armed     bool // inside BeginBlock … EndBlock of a block
+	base      int  // goroutines alive when the current ABCI phase started
+	inEpisode bool // already stalled while the goroutine(s) seen now were alive
+	nYield    int
+	nStalls   int
+	nShort    int
+}
+
+func (l *lagger) phaseStart() {
+	l.armed = true
+	l.base = runtime.NumGoroutine()
+	l.inEpisode = false
+}
+
+func (l *lagger) yield() {
+	l.nYield++
+	if l.plan.Every > 0 && l.plan.BaseUs > 0 && l.nYield%l.plan.Every == 0 {
+		time.Sleep(time.Duration(l.plan.BaseUs) * time.Microsecond)
+		l.nShort++
+	}
+	if !l.armed || l.nStalls >= l.plan.Stalls {
+		return
+	}
+	if runtime.NumGoroutine() <= l.base {
+		l.inEpisode = false
+		return
+	}
+	if l.inEpisode {
+		return
+	}
+	time.Sleep(300 * time.Microsecond) // a goroutine that has nothing left to do is gone by now
+	if runtime.NumGoroutine() <= l.base {
+		return
+	}
+	// something started by the application is still running (or waiting on a timer): this replica now stalls
+	l.inEpisode = true
+	l.nStalls++
+	if os.Getenv("C01_DEBUG") != "" {
+		fmt.Printf("STALL %dms at yield %d (goroutines %d > %d)\n", l.plan.StallMs, l.nYield, runtime.NumGoroutine(), l.base)
+	}
+	time.Sleep(time.Duration(l.plan.StallMs) * time.Millisecond)
+}
+
+// the multistore tracer as a slow sink: one Write per traced store operation, anywhere (DeliverTx and Commit included)
+type lagWriter struct{ l *lagger }
+
+func (w lagWriter) Write(p []byte) (int, error) {
+	if len(p) > 1 { // the operation line, not the newline that follows it
+		w.l.yield()
+	}
+	return len(p), nil
+}
+
+// the context multistore of BeginBlock / EndBlock wrapped so that every Get / Has / Set / Delete / iterator step is a yield point
+type lagMS struct {
+	storetypes.MultiStore
+	l *lagger
+}
+
+func (m lagMS) GetKVStore(k storetypes.StoreKey) storetypes.KVStore {
+	return lagKV{m.MultiStore.GetKVStore(k), m.l}
+}
+
+func (m lagMS) CacheMultiStore() storetypes.CacheMultiStore {
+	return lagCMS{m.MultiStore.CacheMultiStore(), m.l}
+}
+
+type cacheMS = storetypes.CacheMultiStore
+
+type lagCMS struct {
+	cacheMS
+	l *lagger
+}
+
+func (m lagCMS) GetKVStore(k storetypes.StoreKey) storetypes.KVStore {
+	return lagKV{m.cacheMS.GetKVStore(k), m.l}
+}
+
+func (m lagCMS) CacheMultiStore() storetypes.CacheMultiStore {
+	return lagCMS{m.cacheMS.CacheMultiStore(), m.l}
+}
+
+type lagKV struct {
+	storetypes.KVStore
+	l *lagger
+}
+
+func (s lagKV) Get(k []byte) []byte { s.l.yield(); return s.KVStore.Get(k) }
+func (s lagKV) Has(k []byte) bool   { s.l.yield(); return s.KVStore.Has(k) }
+func (s lagKV) Set(k, v []byte)     { s.l.yield(); s.KVStore.Set(k, v) }
+func (s lagKV) Delete(k []byte)     { s.l.yield(); s.KVStore.Delete(k) }
+func (s lagKV) Iterator(a, b []byte) storetypes.Iterator {
+	s.l.yield()
+	return lagIter{s.KVStore.Iterator(a, b), s.l}
+}
+func (s lagKV) ReverseIterator(a, b []byte) storetypes.Iterator {
+	s.l.yield()
+	return lagIter{s.KVStore.ReverseIterator(a, b), s.l}
+}
+
+type lagIter struct {
+	storetypes.Iterator
+	l *lagger
+}
+
+func (i lagIter) Next() { i.l.yield(); i.Iterator.Next() }
+
+// newSlowReplica: the same application, genesis and database type; the only differences are the clock: a store tracer that
+// is slow to write to, and BeginBlocker / EndBlocker run on a context whose store operations take time.
+func (w *world) newSlowReplica(plan lagPlan) *replica {
+	db := tmdb.NewMemDB()
+	lg := &lagger{plan: plan}
+	a := app.NewNibiruApp(log.NewNopLogger(), db, lagWriter{lg}, false, sims.EmptyAppOptions{})
+	a.SetBeginBlocker(func(ctx sdk.Context, req abci.RequestBeginBlock) abci.ResponseBeginBlock {
+		lg.phaseStart()
+		return a.BeginBlocker(ctx.WithMultiStore(lagMS{ctx.MultiStore(), lg}), req)
+	})
+	a.SetEndBlocker(func(ctx sdk.Context, req abci.RequestEndBlock) abci.ResponseEndBlock {
+		lg.phaseStart()
+		defer func() { lg.armed = false }()
+		return a.EndBlocker(ctx.WithMultiStore(lagMS{ctx.MultiStore(), lg}), req)
+	})
+	if err := a.LoadLatestVersion(); err != nil {
+		panic(err)
+	}
+	a.InitChain(abci.RequestInitChain{ConsensusParams: sims.DefaultConsensusParams, AppStateBytes: w.gen, Time: GenesisTime, ChainId: ""})
+	a.Commit()
+	return &replica{w: w, db: db, lag: lg, c: &Chain{App: a, TxCfg: app.MakeEncodingConfig().TxConfig, Time: GenesisTime},
+		pending: map[int]*prevote{}, funtokens: map[int]gethcommon.Address{}, granted: map[[2]int]bool{}}
+}
+
 // ------------------------------------------------------------------ one replica
 
 type prevote struct {
@@ -320,6 +474,7 @@ type perturb struct {
 
 type replica struct {
 	db          tmdb.DB
+	lag         *lagger // non-nil: the slow replica
 	pt          perturb
 	blockIdx    int
 	nQueries    int
@@ -1163,6 +1318,10 @@ type diffObs struct {
 	Restarts        int            `json:"restarts"`          // replica 2: restarts from its database
 	CheckTxs        int            `json:"checktxs"`          // replica 2: CheckTx / ReCheckTx calls
 	Child           bool           `json:"child"`             // the last row of Replicas comes from a separate process
+	Slow            bool           `json:"slow"`              // row nReplicas of Replicas comes from the replica with injected delays
+	SlowYields      int            `json:"slow_yields"`       // slow replica: store operations that were yield points
+	SlowStalls      int            `json:"slow_stalls"`       // slow replica: long stalls taken (while an application goroutine was alive)
+	SlowShort       int            `json:"slow_short"`        // slow replica: short delays taken
 }
 
 // childDigests runs the history in a SEPARATE PROCESS (own heap layout, own map hash seeds, own
@@ -1223,12 +1382,16 @@ func runDiff(w *world, in c01Input, withChild bool) diffObs {
 		reps[1].pt = perturb{queries: true}
 		reps[2].pt = perturb{checkTx: true, restart: 3}
 	}
+	if in.Lag != nil {
+		reps = append(reps, w.newSlowReplica(*in.Lag))
+	}
+	nReps := len(reps)
 	obs := diffObs{Replicas: [][]int{}, PreAnteGas: [][]int{}, Differs: []string{}, Kinds: map[string]int{}}
-	digests := make([][]string, nReplicas)
-	preAnte := make([][]string, nReplicas)
+	digests := make([][]string, nReps)
+	preAnte := make([][]string, nReps)
 	located := false
 	for _, b := range in.Blocks {
-		ds := make([]blockDigest, nReplicas)
+		ds := make([]blockDigest, nReps)
 		for i, r := range reps {
 			ds[i] = r.runBlock(b, false)
 			digests[i] = append(digests[i], ds[i].all)
@@ -1242,7 +1405,7 @@ func runDiff(w *world, in c01Input, withChild bool) diffObs {
 		}
 		obs.NTx += len(ds[0].codes)
 		obs.NPreAnte += ds[0].nPreAnte
-		for i := 1; i < nReplicas; i++ {
+		for i := 1; i < nReps; i++ {
 			for t := range ds[0].preGas {
 				if t < len(ds[i].preGas) {
 					d := ds[i].preGas[t] - ds[0].preGas[t]
@@ -1256,7 +1419,7 @@ func runDiff(w *world, in c01Input, withChild bool) diffObs {
 			}
 		}
 		if !located {
-			for i := 1; i < nReplicas; i++ {
+			for i := 1; i < nReps; i++ {
 				if ds[i].all == ds[0].all && ds[i].preAnte != ds[0].preAnte {
 					located = true
 					obs.Differs = append(obs.Differs, "preante-gas")
@@ -1270,6 +1433,9 @@ func runDiff(w *world, in c01Input, withChild bool) diffObs {
 				}
 				if ds[i].all != ds[0].all {
 					located = true
+					if reps[i].lag != nil {
+						obs.Differs = append(obs.Differs, "slow-replica")
+					}
 					names := []string{"apphash", "txresults", "valupdates"}
 					for p := range ds[0].parts {
 						if ds[i].parts[p] != ds[0].parts[p] {
@@ -1300,6 +1466,10 @@ func runDiff(w *world, in c01Input, withChild bool) diffObs {
 	obs.Queries = [2]int{reps[1].nQueries, reps[1].nQueryOK}
 	obs.Restarts = reps[2].nRestarts
 	obs.CheckTxs = reps[2].nCheckTx
+	if in.Lag != nil {
+		lg := reps[nReps-1].lag
+		obs.Slow, obs.SlowYields, obs.SlowStalls, obs.SlowShort = true, lg.nYield, lg.nStalls, lg.nShort
+	}
 	if withChild {
 		ds, err := childDigests(in)
 		if err != nil {
@@ -1373,6 +1543,12 @@ func genDiff(r *Rng, opener int) c01Input {
 		}
 		// every validator feeds the oracle in most blocks (so that reveals and tallies happen)
 		for v := 0; v < nVals; v++ {
+			if opener == 8 {
+				// dense oracle rounds: every validator prices every pair in every block, so that every vote-period end
+				// tallies several pairs (the loops that consume omap.Range do real work)
+				blk.Ops = append(blk.Ops, c01Op{Kind: "oracle", A: v, L: []int{100 + r.Intn(20), 100 + r.Intn(20), 100 + r.Intn(20)}})
+				continue
+			}
 			if r.Chance(5, 6) {
 				var rates []int
 				for range oraclePairs {
@@ -1765,6 +1941,62 @@ func runOmap(in c01Input) [][]int {
 	return out
 }
 
+// runRange consumes `for k := range om.Range()` of the real SortedMap once per clock: clock[i] = milliseconds the consumer
+// spends before its (i+1)-th receive.
+func runRange(in c01Input) [][]int {
+	m := map[string]int{}
+	for _, k := range in.Keys {
+		m[keyStr(k)] = k
+	}
+	out := [][]int{}
+	for _, clock := range in.Delays {
+		om := omap.SortedMap_String(m)
+		i := 0
+		wait := func() {
+			if i < len(clock) && clock[i] > 0 {
+				time.Sleep(time.Duration(clock[i]) * time.Millisecond)
+			}
+			i++
+		}
+		got := []int{}
+		ch := om.Range()
+		wait()
+		for k := range ch {
+			got = append(got, m[k])
+			wait()
+		}
+		out = append(out, got)
+	}
+	return out
+}
+
+// genRange: 0-8 keys; a fast consumer, a consumer with short delays, and (long = true) one that stalls once for 1.1-2.4 s
+func genRange(r *Rng, long bool) c01Input {
+	in := c01Input{T: "range", Keys: []int{}}
+	for j, n := 0, r.Range(0, 8); j < n; j++ {
+		in.Keys = append(in.Keys, r.Intn(40))
+	}
+	if long && len(in.Keys) < 2 {
+		in.Keys = append(in.Keys, 41, 42)
+	}
+	distinct := map[int]bool{}
+	for _, k := range in.Keys {
+		distinct[k] = true
+	}
+	n := len(distinct) + 1
+	fast, short := make([]int, n), make([]int, n)
+	for j := range short {
+		short[j] = r.Pick(3, 2, 1) * r.Range(1, 4)
+	}
+	in.Delays = [][]int{fast, short}
+	if long {
+		stall := make([]int, n)
+		stall[r.Intn(len(distinct))] = r.Range(1100, 2400)
+		in.Delays = append(in.Delays, stall)
+	}
+	return in
+}
+
 func runSKeys(in c01Input) []int {
 	st := statedb.Storage{}
 	for _, k := range in.Keys {
@@ -1837,6 +2069,8 @@ func runOne(w *world, em *Emitter, in c01Input) {
 		em.Emit(in, runAbi(in), nil)
 	case "tw":
 		em.Emit(in, runTW(in), nil)
+	case "range":
+		em.Emit(in, runRange(in), nil)
 	}
 }
 
@@ -1864,13 +2098,23 @@ func TestC01(t *testing.T) {
 	rng := NewRng(cfg.Seed)
 	for i := 0; i < cfg.N; i++ {
 		opener := 0
-		if i < 7 {
+		if i < 8 {
 			opener = i + 1
 		}
 		in := genDiff(rng.Fork(), opener)
 		in.Child = i < 3 || (cfg.Tier == "thorough" && i%2 == 0)
+		if opener == 8 || (i > 8 && i%4 == 1) {
+			// a fourth in-process replica with injected wall-clock delays
+			lr := rng.Fork()
+			in.Lag = &lagPlan{BaseUs: 50 + lr.Intn(400), Every: 20 + lr.Intn(80), StallMs: lr.Range(1100, 2000), Stalls: 2}
+			if cfg.Tier == "thorough" {
+				in.Lag.StallMs, in.Lag.Stalls = lr.Range(1100, 3500), 4
+			}
+		}
 		runOne(w, em, in)
 	}
+	// the producer goroutine of omap.Range against a consumer that stalls once between two receives
+	runOne(w, em, c01Input{T: "range", Keys: []int{7, 3, 5}, Delays: [][]int{{0, 0, 0, 0}, {0, 1500, 0, 0}}})
 	for i := 0; i < 3; i++ {
 		runOne(w, em, c01Input{T: "abi", Which: i})
 	}
@@ -1895,6 +2139,7 @@ func TestC01(t *testing.T) {
 			ws = append(ws, [2]int{v, r.Intn(50)})
 		}
 		runOne(w, em, c01Input{T: "tw", Ws: ws})
+		runOne(w, em, genRange(r, i%16 == 5))
 	}
 	_ = bytes.Compare
 }
